@@ -24,15 +24,17 @@ CONFIG = {'assumptions': [
     'a DIE is addressed as get_CU_at(u).get_DIE_from_refaddr(o); generators live in slots; the client keeps the '
     'list of its last CFI_entries()/EH_CFI_entries() call and decodes entries of that list; a decoded table is '
     'observed as its rows (register rules in row order) and reg_order',
-    'supplementary_dwarfinfo is None; type units (.debug_types) are exercised against the fresh-object '
-    'oracle only', ]}
+    'supplementary_dwarfinfo is None; type units are modelled as far as iter_TUs and the lazily built '
+    '_type_units_by_sig index (get_TU_by_sig8) go; the entries inside type units and DW_FORM_ref_sig8 dereference '
+    'are not in the model', ]}
 LEVEL = {'text': 'Machine-checked refinement of a state machine (caches, object heap with identity, link fields, memo '
                  'fields, one cursor per stream, generator frames) against a stateless reference: an invariant '
                  '(cache lists sorted, duplicate-free and parallel; every cached unit/entry/abbreviation table/line '
                  'program is the pure parse at its key; unit and entry objects unique per offset; parent/terminator '
                  'links true; memo fields equal the pure result) holds initially, and EVERY valid operation - queries, '
                  'get_parent with its ancestor search, get_decoded() of call-frame entries (memo per entry, FDEs through their '
-                 'CIE), creating and resuming iter_CUs/iter_DIEs/iter_children/'
+                 'CIE), get_TU_by_sig8 over the lazily built signature index (with the unit-cache side effects of building '
+                 'it), creating and resuming iter_CUs/iter_TUs/iter_DIEs/iter_children/'
                  'iter_siblings/iter_sections/iter_symbols/iter_tags, stream repositioning - returns the stateless '
                  'answer and keeps the invariant; lifted by induction to every finite history, with corollaries '
                  '(answer after any history = answer of a fresh object, repeated queries equal, generator element = '
